@@ -143,7 +143,26 @@ def C19():
     )
 
 
-PROPERTIES = {"C04": C04, "C06": C06, "C08": C08, "C10": C10, "C12": C12, "C16": C16, "C19": C19}
+def C18():
+    from contracts.exports import UNITS
+    from contracts import replayers as R
+    return Property(
+        "C18",
+        units=[ContractUnit(u) for u in UNITS],
+        level="proof",
+        technique="effect-trace contracts on the real write_rtf/write_docx/write_html/write_pdf bodies with a raise point injected at the "
+                  "encode and conversion calls (before, after output, malformed result); trace obligations per exit path",
+        trusted_base=[SOLVERS, ENGINE, "pathlib / tempfile.TemporaryDirectory / shutil.move assumed contracts (DESIGN 1.7)",
+                      "converter contract: writes only under output_dir and returns its result path"],
+        assumptions=["faults are injected at the encoding and conversion calls (the property's 'encoding or conversion fails'), not inside "
+                     "mkdir/write_text/shutil.move; write_html's second move (resources folder) after a successful first move is outside the clause",
+                     "rtf_encode() itself performs no file-system write (frame scan: separate unit, not yet in this check)"],
+        replayers={"encode.py::RTFDocument.write_": R.replay_exports},
+        design_ref="4/C18, A21",
+    )
+
+
+PROPERTIES = {"C18": C18, "C04": C04, "C06": C06, "C08": C08, "C10": C10, "C12": C12, "C16": C16, "C19": C19}
 
 # ---- texts for MANIFEST.json (tools/gen_manifest.py) ------------------------------------------------------
 MANIFEST_TEXT = {
@@ -190,6 +209,14 @@ MANIFEST_TEXT = {
                 "JPEG scan terminating, the picture group carries blip keyword by format, pixel size, floor(inches*1440) goals, balanced "
                 "braces; positional size lookup reuses the last value.",
         "note": "bytes.hex, slicing and struct.unpack are assumed contracts; the per-page loop of figure documents is named as not yet under contract.",
+    },
+    "C18": {
+        "text": "For the real bodies of the four export methods, on every exit path (normal, exception at encode, at conversion before/after it "
+                "produced output, malformed converter result, converter construction failure): intermediate files are written only under the two "
+                "temporary directories, both are removed, the target is touched only by the final move of the converter's result (write_rtf: by "
+                "one write of exactly the encoded string, after encoding completed), and nothing is moved on failure.",
+        "note": "pathlib/tempfile/shutil and the converter are assumed contracts; paths are uninterpreted terms with an 'under' relation; "
+                "crash points inside the library calls themselves (partial write_text, failing move) are outside the property's clause.",
     },
     "C19": {
         "text": "For each validator under contract and each input shape (None, scalar, flat list, jagged nested list of any size) the real body "
